@@ -10,6 +10,8 @@
 
 //! Helper structure for working with mmaped memory regions in Unix.
 
+#[cfg(vm_memory_verif)]
+use crate::verif::sys as libc;
 use std::io;
 use std::os::unix::io::AsRawFd;
 use std::ptr::null_mut;
